@@ -1,6 +1,54 @@
 package props
 
-import "verif/report"
+import (
+	"encoding/base64"
+	"fmt"
 
-// c13Served is the compiled half (served body, middlewares bypassed); filled in with the batch engine.
-var c13Served = func(run *report.Run, env *Env) {}
+	"verif/cells"
+	"verif/drv"
+	"verif/genrun"
+	"verif/report"
+)
+
+// c13Served is the compiled half of C13: the served body (and the compiled constant) through real
+// packages, under base-path forms, spec names, middleware stacks and handler installed/nil.
+var c13Served = func(run *report.Run, env *Env) {
+	base, _, _ := cells.Base()
+	baseDoc := base.YAML()
+	var states []BState
+	add := func(id string, specDoc, raw []byte, bf cells.BaseForm, name string) {
+		sp := specDoc
+		if len(bf.Servers) > 0 {
+			sp = cells.WithBase(base, bf).YAML()
+		}
+		pl := &drv.SpecFilePayload{State: id, RawB64: base64.StdEncoding.EncodeToString(raw), Base: bf.Want, SpecName: name}
+		states = append(states, BState{ID: id, Attrs: mergeAttrs(c13Shape(raw), map[string]string{"base": bf.Name, "specName": name}),
+			Gen: &genrun.Job{Spec: sp, Raw: raw, RawSet: true, BasePath: bf.Flag, SpecName: name}, Prop: "C13", Payload: pl})
+	}
+	maxLen := 2
+	if run.Tier == "thorough" {
+		maxLen = 3
+	}
+	none := cells.BaseFormByName("none")
+	for _, raw := range allStrings(c13Alphabet, 0, maxLen) {
+		add(fmt.Sprintf("served:bytes:%q", raw), baseDoc, raw, none, "openapi.yaml")
+	}
+	for i, raw := range [][]byte{baseDoc, []byte("a: `b`\r\nc: \"d\\e\"\r\n"), []byte(`{"openapi":"3.0.3","x":"\\` + "`" + `"}`)} {
+		for _, bn := range []string{"none", "v1", "v1slash", "flag", "vars", "slash"} {
+			for _, name := range []string{"openapi.yaml", "spec.json"} {
+				add(fmt.Sprintf("served:doc%d:base=%s:name=%s", i, bn, name), baseDoc, raw, cells.BaseFormByName(bn), name)
+			}
+		}
+	}
+	st := RunBatch(run, env, states, 250)
+	run.Cov["served_states"] = st.Healthy
+	run.Cov["served_requests"] = st.Counters["requests"]
+	run.Cov["served_masked"] = st.MaskedWhy
+	if s, ok := run.Cov["states"].(int64); ok {
+		run.Cov["states"] = s + int64(st.Healthy)
+	}
+	if t, ok := run.Cov["transitions"].(int64); ok {
+		run.Cov["transitions"] = t + st.Counters["requests"]
+		run.Cov["traces_validated_against_impl"] = t + st.Counters["requests"]
+	}
+}
